@@ -8,10 +8,10 @@ ROOT = os.path.dirname(os.path.dirname(os.path.abspath(__file__)))
 SD = os.path.join(ROOT, "seeded")
 
 
-def store():
+def store(root="/tmp/seed3", offset=2, rnd=3):
     for P in [f"C{i:02d}" for i in range(1, 21)]:
         for k in (1, 2, 3):
-            src = f"/tmp/seed3/{P}/_seed/{k}"
+            src = f"{root}/{P}/_seed/{k}"
             rf = f"/tmp/sv2/result_{P}_{k}.json"
             if not os.path.exists(rf):
                 continue
@@ -20,15 +20,16 @@ def store():
             if not ok:
                 print("not confirmed, skipped:", P, k, res)
                 continue
-            sid = f"{P}-{k + 2}"
+            sid = f"{P}-{k + offset}"
             dst = os.path.join(SD, sid)
             os.makedirs(dst, exist_ok=True)
             shutil.copy(os.path.join(src, "patch.diff"), os.path.join(dst, "patch.diff"))
             shutil.copy(os.path.join(src, "demo.py"), os.path.join(dst, "demo.py"))
             am = json.load(open(os.path.join(src, "meta.json")))
             json.dump(am, open(os.path.join(dst, "agent_meta.json"), "w"), indent=1)
-            meta = {"id": sid, "property": P, "round": 3, "summary": am.get("summary"), "needs_to_manifest": am.get("needs_to_manifest"), "files_changed": am.get("files_changed"),
-                    "written_by": "independent sub-agent given only the property text and a scratch worktree (round 3: three changes per property, asked for state leaks, boundary inputs, histories)",
+            meta = {"id": sid, "property": P, "round": rnd, "summary": am.get("summary"), "needs_to_manifest": am.get("needs_to_manifest"), "files_changed": am.get("files_changed"),
+                    "written_by": "independent sub-agent given only the property text and a scratch worktree (round 3: three changes per property, asked for state leaks, boundary inputs, histories; "
+                                  "round 4: value-level defects on degenerate cases, sizes beyond the tests, unusual argument types, tolerance misuse, two-step sequences)",
                     "confirmed_by_me": {"scratch_worktree": "git worktree of /repo HEAD under /tmp/sv2 (removed afterwards)", "demo_on_clean_tree_exit": res["demo_clean_exit"],
                                         "patch_applies_with_git_apply": True, "demo_with_patch_exit": res["demo_patched_exit"], "baseline_tests_lost_with_patch": 0,
                                         "commands": ["SEED_SRC=<wt>/src /venv/bin/python demo.py", "git apply patch.diff", "PYTHONPATH=<wt>/src /venv/bin/python -m pytest ... --junitxml; tools/junit_cmp.py"]}}
@@ -71,4 +72,7 @@ def evaluate():
 
 
 if __name__ == "__main__":
-    {"store": store, "eval": evaluate}[sys.argv[1]]()
+    if sys.argv[1] == "store":
+        store(*(sys.argv[2:3] or ["/tmp/seed3"]), offset=int(sys.argv[3]) if len(sys.argv) > 3 else 2, rnd=int(sys.argv[4]) if len(sys.argv) > 4 else 3)
+    else:
+        evaluate()
